@@ -100,3 +100,15 @@ Theorem c01_negative_only_forced : forall deny s st s',
   forced_node_change (st_op st) = false -> no_negative s -> no_negative s'.
 Proof. exact negative_only_forced. Qed.
 Print Assumptions c01_negative_only_forced.
+
+(* necessity of two hypotheses (witnesses by computation) *)
+Theorem c01_negative_only_forced_without_nonneg_refuted :
+  exists s st s', m_step [] s st = Some s' /\ SInv s /\ Bounded s /\ forced_node_change (st_op st) = false /\
+                  no_negative s /\ ~ no_negative s'.
+Proof. exact negative_only_forced_without_nonneg_refuted. Qed.
+Print Assumptions c01_negative_only_forced_without_nonneg_refuted.
+
+Theorem c01_n_add_existing_key_refuted :
+  exists n x n', node_ledger_ok n = true /\ n_add n x false = Some n' /\ node_ledger_ok n' = false.
+Proof. exact n_add_existing_key_refuted. Qed.
+Print Assumptions c01_n_add_existing_key_refuted.
